@@ -33,6 +33,13 @@ def compute_cook_scores(base_estimate, cdd_estimates, covariance_matrix):
         #   the 2-norm of x   where x is
         # solution to triangular system  delta_vector^T = chol * x
         # Below we solve for all delta-vectors in one line
+        if isinstance(cdd_estimates, pd.DataFrame):
+            # Use the parameter order of cdd_estimates for all labelled inputs
+            names = cdd_estimates.columns
+            if isinstance(base_estimate, pd.Series):
+                base_estimate = base_estimate[names]
+            if isinstance(covariance_matrix, pd.DataFrame):
+                covariance_matrix = covariance_matrix.loc[names, names]
         chol, islow = linalg.cho_factor(covariance_matrix)
         delta_matrix = cdd_estimates - base_estimate
         x = linalg.solve_triangular(chol, delta_matrix.transpose(), lower=islow, trans=1)
